@@ -1320,7 +1320,7 @@ def o_record_query(tr):
 
 
 ORACLES = {
-    "C02": [o_c02, o_invariants, o_c03], "C03": [o_c03], "C04": [o_c04, o_invariants], "C05": [o_c05, o_c05_granter, o_c05_amount], "C07": [o_c07, o_c08, o_c08_prune, o_record_query, o_import_same], "C08": [o_c08, o_c08_prune, o_record_query, o_import_same],
+    "C02": [o_c02, o_invariants, o_c03], "C03": [o_c03, o_c13], "C04": [o_c04, o_invariants], "C05": [o_c05, o_c05_granter, o_c05_amount], "C07": [o_c07, o_c08, o_c08_prune, o_record_query, o_import_same], "C08": [o_c08, o_c08_prune, o_record_query, o_import_same],
     "C09": [o_c09, o_owner_writes, o_import_same, o_owner_canonical], "C10": [o_c10, o_c10_fee, o_invariants], "C11": [o_c11, o_c11_zero, o_c11_clock, o_c11_topup], "C12": [o_c12, o_c12_live, o_c11_topup, o_c16], "C14": [o_c14], "C16": [o_c16, o_c03, o_c06_plain, o_c08, o_decide_succeeds, o_c10_fee], "C18": [o_c18, o_c09, o_c15, o_c20, o_page_progress, o_c08, o_c08_prune],
     "C13": [o_c13, o_owner_writes, o_import_same, o_c18], "C17": [o_c17, o_page_progress, o_c04], "C20": [o_c20, o_page_progress], "C15": [o_c15, o_invariants], "C06": [o_c06], "C01": [],
 }
